@@ -511,7 +511,8 @@ pub fn run(ctx: &Ctx) -> ! {
     let mut cases: Vec<(usize, Vec<Val>, Layout)> = vec![];
     for (ti, dt) in grid.iter().enumerate() {
         let lays: Vec<Layout> = layouts_1(dt).into_iter().filter(|l| l.slice.is_none_or(|(p, _)| p <= 9)).collect();
-        for col in columns(dt, 3, n_len, true) {
+        // 4 letters so that string alphabets contain a multi-byte character (offsets inside a code point)
+        for col in columns(dt, 4, n_len, true) {
             for l in &lays {
                 cases.push((ti, col.clone(), l.clone()));
             }
